@@ -130,19 +130,18 @@ func (w *World) instrEffects(in ssa.Instruction, eff *Effects, cells map[*ssa.Al
 		}
 	case *ssa.Slice:
 		if _, ok := i.X.Type().Underlying().(*types.Pointer); ok {
-			eff.allocs = true
-			eff.prefixes["E:"+typeKey(i.Type().Underlying().(*types.Slice).Elem())] = true
+			eff.allocs = true // slicing an array is modelled as a copy into a fresh backing array
 		}
 	case *ssa.Call:
-		eff.add(w.callEffects(&i.Call, cells, x))
+		eff.add(w.callEffects(i, &i.Call, cells, x))
 	case *ssa.Defer:
-		eff.add(w.callEffects(&i.Call, cells, x))
+		eff.add(w.callEffects(i, &i.Call, cells, x))
 	case *ssa.Go:
 		eff.all = true
 	}
 }
 
-func (w *World) callEffects(call *ssa.CallCommon, cells map[*ssa.Alloc]bool, x *Exec) *Effects {
+func (w *World) callEffects(site ssa.CallInstruction, call *ssa.CallCommon, cells map[*ssa.Alloc]bool, x *Exec) *Effects {
 	eff := newEffects()
 	if call.IsInvoke() {
 		if fc := w.contractForMethod(call); fc != nil && (fc.Pure || fc.ModifiesGiven) {
@@ -152,25 +151,11 @@ func (w *World) callEffects(call *ssa.CallCommon, cells map[*ssa.Alloc]bool, x *
 			}
 			return eff
 		}
-		eff.all = true
-		eff.allocs = true
-		return eff
+		return w.dynamicEffects(site)
 	}
 	switch f := call.Value.(type) {
 	case *ssa.Builtin:
-		switch f.Name() {
-		case "append":
-			eff.allocs = true // functional model: the result lives in a fresh backing array
-		case "copy":
-			if sl, ok := call.Args[0].Type().Underlying().(*types.Slice); ok {
-				eff.prefixes["E:"+typeKey(sl.Elem())] = true
-			}
-		case "delete":
-			eff.prefixes["M:"+typeKey(call.Args[0].Type())] = true
-		case "clear":
-			eff.all = true
-		}
-		return eff
+		return w.builtinEffects(f, call)
 	case *ssa.Function:
 		eff.add(w.funcEffects(f))
 		// locals whose address is passed may be written
@@ -227,8 +212,17 @@ func (w *World) callEffects(call *ssa.CallCommon, cells map[*ssa.Alloc]bool, x *
 			}
 		}
 	}
-	eff.all = true
+	return w.dynamicEffects(site)
+}
+
+// dynamicEffects: union over the class-hierarchy call graph's candidates for this call site.
+func (w *World) dynamicEffects(site ssa.CallInstruction) *Effects {
+	w.computeEffects()
+	eff := newEffects()
 	eff.allocs = true
+	for _, c := range w.siteCallees[site] {
+		eff.add(w.funcEffects(c))
+	}
 	return eff
 }
 
@@ -274,54 +268,6 @@ func root(v ssa.Value) ssa.Value {
 			return v
 		}
 	}
-}
-
-// funcEffects: transitive may-write summary of a function in /repo, or the
-// declared/assumed summary of an external function.
-func (w *World) funcEffects(fn *ssa.Function) *Effects {
-	if e, ok := w.effCache[fn]; ok {
-		return e
-	}
-	eff := newEffects()
-	w.effCache[fn] = eff // recursion: assume fixed point reached through re-scan below
-	if fc := w.contracts[funcKey(fn)]; fc != nil && (fc.Pure || (fc.ModifiesGiven && (fc.Trusted || len(fn.Blocks) == 0))) {
-		if !fc.Pure {
-			w.modifiesEffects(fc, eff)
-		}
-		eff.allocs = true
-		return eff
-	}
-	if len(fn.Blocks) == 0 || !w.inRepo(fn) {
-		if fc := w.contracts[funcKey(fn)]; fc != nil && fc.ModifiesGiven {
-			w.modifiesEffects(fc, eff)
-			eff.allocs = true
-			return eff
-		}
-		// unknown external: writes anything reachable if it gets a reference
-		sig := fn.Signature
-		refy := sig.Recv() != nil && hasRefs(sig.Recv().Type())
-		for i := 0; i < sig.Params().Len(); i++ {
-			if hasRefs(sig.Params().At(i).Type()) {
-				refy = true
-			}
-		}
-		if refy && !w.pureExternal(fn) {
-			eff.all = true
-		}
-		eff.allocs = true
-		return eff
-	}
-	for iter := 0; iter < 3; iter++ {
-		for _, b := range fn.Blocks {
-			for _, in := range b.Instrs {
-				w.instrEffects(in, eff, nil, nil)
-			}
-		}
-	}
-	for _, anon := range fn.AnonFuncs {
-		eff.add(w.funcEffects(anon))
-	}
-	return eff
 }
 
 func hasRefs(t types.Type) bool {
@@ -510,8 +456,56 @@ func (x *Exec) doCall(st *State, call *ssa.CallCommon, instr ssa.Instruction, po
 			return x.callCallback(st, cb, f, resType, pos)
 		}
 	}
+	// call through a function stored in a struct field that has a contract ("func field T.f")
+	if ld, ok := call.Value.(*ssa.UnOp); ok && ld.Op == token.MUL {
+		if fa, ok := ld.X.(*ssa.FieldAddr); ok {
+			st0 := deref(fa.X.Type())
+			key := "field " + typeKey(st0) + "." + fieldName(st0, fa.Field)
+			if fc := x.w.contracts[key]; fc != nil {
+				sig := call.Value.Type().Underlying().(*types.Signature)
+				names := []string{"recv"}
+				if fc.RecvName != "" {
+					names[0] = fc.RecvName
+				}
+				tys := []types.Type{fa.X.Type()}
+				vals := []Value{x.val(st, fa.X)}
+				for k := 0; k < sig.Params().Len(); k++ {
+					n := sig.Params().At(k).Name()
+					if k < len(fc.ParamNames) {
+						n = fc.ParamNames[k]
+					}
+					names = append(names, n)
+					tys = append(tys, sig.Params().At(k).Type())
+					vals = append(vals, args[k])
+				}
+				x.ledger["contract of the function stored in "+key+" (calls through the field are checked against it)"] = true
+				// the callee is unknown code: besides the contract's frame, everything the program-wide
+				// analysis says such a function value may write
+				eff := x.w.dynamicEffects(instr.(ssa.CallInstruction))
+				if eff.all {
+					x.havocForUnknown(st)
+				} else {
+					x.applyEffects(st, eff)
+				}
+				return x.applyContract(st, fc, names, tys, vals, sig.Results(), resType, pos, key, nil)
+			}
+		}
+	}
 	// unknown function value: havoc everything
-	x.ledger["dynamic call through unknown function value in "+shortFunc(x.fn.String())+": everything havoced"] = true
+	if ci, ok := instr.(ssa.CallInstruction); ok {
+		eff := x.w.dynamicEffects(ci)
+		x.ledger["dynamic call through a function value in "+shortFunc(x.unitName())+": the write sets of all candidates of the call graph (CHA+VTA) havoced, result unconstrained"] = true
+		if eff.all {
+			x.havocForUnknown(st)
+		} else {
+			x.applyEffects(st, eff)
+			nt := x.c.Fresh("allocTop", SInt)
+			x.hyps = append(x.hyps, x.c.Le(st.allocTop, nt))
+			st.allocTop = nt
+		}
+		return x.freshResult(st, "dyncall", resType)
+	}
+	x.ledger["dynamic call through unknown function value in "+shortFunc(x.unitName())+": everything havoced"] = true
 	x.havocForUnknown(st)
 	return x.freshResult(st, "dyncall", resType)
 }
@@ -591,6 +585,17 @@ func (x *Exec) invoke(st *State, call *ssa.CallCommon, resType types.Type, pos t
 			vals = append(vals, args[k])
 		}
 		return x.applyContract(st, fc, names, types_, vals, sig.Results(), resType, pos, "iface."+call.Method.Name(), nil)
+	}
+	if ci, ok := x.curInstr.(ssa.CallInstruction); ok && ci.Common() == call {
+		eff := x.w.dynamicEffects(ci)
+		x.ledger[fmt.Sprintf("interface call %s.%s without contract: write sets of all implementations (CHA+VTA call graph) havoced, result unconstrained", typeKey(call.Value.Type()), call.Method.Name())] = true
+		if !eff.all {
+			x.applyEffects(st, eff)
+			nt := x.c.Fresh("allocTop", SInt)
+			x.hyps = append(x.hyps, x.c.Le(st.allocTop, nt))
+			st.allocTop = nt
+			return x.freshResult(st, "invoke_"+call.Method.Name(), resType)
+		}
 	}
 	x.ledger[fmt.Sprintf("interface call %s.%s without contract: everything havoced", typeKey(call.Value.Type()), call.Method.Name())] = true
 	x.havocForUnknown(st)
@@ -769,7 +774,13 @@ func (x *Exec) closureWriteSet(st *State, f FuncV, eff *Effects) ([]loc, bool) {
 		if l.kind == "cell" || l.kind == "prefix" {
 			return nil, false
 		}
+		if l.kind == "elem1" && x.c.dependsOnFreshSince(l.idx, mark) {
+			l = loc{kind: "elems", base: l.base, prefix: l.prefix, typ: l.typ}
+		}
 		key := fmt.Sprintf("%s|%s|%d", l.kind, l.prefix, l.base.id)
+		if l.idx != nil {
+			key += fmt.Sprintf("|%d", l.idx.id)
+		}
 		if !seen[key] {
 			seen[key] = true
 			out = append(out, l)
@@ -1062,6 +1073,7 @@ type loc struct {
 	prefix string
 	typ    types.Type
 	cell   *ssa.Alloc
+	idx    *Term // "elem1": the single element (absolute index in the backing array)
 }
 
 func (x *Exec) havocLoc(st *State, l loc) {
@@ -1085,6 +1097,13 @@ func (x *Exec) havocLoc(st *State, l loc) {
 			h := x.heapGetK(st, k, ArrSort(SInt, ArrSort(SInt, lf.sort)))
 			nv := c.Fresh("hv_"+k, ArrSort(SInt, lf.sort))
 			st.heap[k] = c.Store(h, l.base, nv)
+		}
+	case "elem1":
+		for _, lf := range leavesOf(l.typ) {
+			k := l.prefix + lf.suffix
+			h := x.heapGetK(st, k, ArrSort(SInt, ArrSort(SInt, lf.sort)))
+			nv := c.Fresh("hv_"+k, lf.sort)
+			st.heap[k] = c.Store(h, l.base, c.Store(c.Select(h, l.base), l.idx, nv))
 		}
 	case "cell":
 		t := deref(l.cell.Type())
